@@ -303,6 +303,10 @@ IMPLS: Dict[str, Callable[..., Any]] = {
     "retnone": lambda a, b: None,
     "zero_if_1": lambda a, b: 0 if _k(b) == 1 else b,
     # keys
+    # keys that are EQUAL (or the very same object) for every item and cannot be ordered: the counterparts compare keys
+    # with ``<`` only, and fail on them like on any other unorderable pair
+    "nonekey": lambda x: None,
+    "dictkey": lambda x: {"k": 1},
     "half": lambda x: _k(x) // 2,
     "neg": lambda x: -_k(x),
     "ident": lambda x: x,
